@@ -18,7 +18,7 @@ CELLS = [('orthorhombic', np.diag([10.0, 11, 12])), ('positive tilts', np.array(
          ('mixed-sign tilts', np.array([[10.0, 0, 0], [-3, 11, 0], [-2, 1.5, 12]])), ('all tilts negative', np.array([[10.0, 0, 0], [-3, 11, 0], [-2, -1.5, 12]])),
          ('only yz tilted, negative', np.array([[10.0, 0, 0], [0, 11, 0], [0, -2.5, 12]])), ('tilt that prints as 0.000000', np.array([[10.0, 0, 0], [1e-8, 11, 0], [0, 0, 12]])), ('no cell', None)]
 KOPT = [(0, 0), (1, 1), (2, 3), (3, 1), (3, 3), (2, 0)]          # (number of types, number of terms) per kind
-KSHAPES_Q = [(0, 0, 0, 0), (1, 1, 1, 1), (2, 2, 2, 2), (4, 4, 4, 4), (2, 1, 0, 4), (3, 0, 2, 1), (0, 3, 5, 0), (5, 5, 1, 2)]   # indices into KOPT
+KSHAPES_Q = [(0, 0, 0, 0), (1, 1, 1, 1), (3, 3, 3, 3), (2, 2, 2, 2), (4, 4, 4, 4), (2, 1, 0, 4), (3, 0, 2, 1), (0, 3, 5, 0), (5, 5, 1, 2)]   # indices into KOPT
 ATYPES = [('two types', [0, 1, 1, 0], ['C', 'N'], [12.0107, 14.0067]), ('one type', [0, 0, 0, 0], ['C'], [12.0107]),
           ('three types, last one unused', [0, 1, 1, 0], ['C', 'N', 'O'], [12.0107, 14.0067, 15.9994]), ('non-atomic masses', [1, 0, 0, 1], ['X', 'Y'], [100.25, 3.5])]
 LABELS = [('element-like', lambda els: list(els)), ('UFF-like', lambda els: [e + '_R' for e in els]), ('with blanks', lambda els: [e + ' %d' % i for i, e in enumerate(els)])]
@@ -51,7 +51,7 @@ def plan(tier, seed):
                         for co in (0, 5):
                             scs.append(dict(cell=ci, ks=list(ks), tables=tables, co=co, ch=1, xy=0, lab=1, at=0, st=st))
     return dict(scenarios=scs, exhaustive=True, chunk=100,
-                menus=dict(cells=[c[0] for c in CELLS], per_kind_types_terms=KOPT, kind_shapes='8 fixed combinations' + ('' if q else ' + full product 6^4'), tables=['present', 'absent'], coefficient_strings=COEFFS,
+                menus=dict(cells=[c[0] for c in CELLS], per_kind_types_terms=KOPT, kind_shapes='9 fixed combinations' + ('' if q else ' + full product 6^4'), tables=['present', 'absent'], coefficient_strings=COEFFS,
                            charges=CHARGES, coordinates=[c[0] for c in COORDS], labels=[l[0] for l in LABELS], atom_types=[a[0] for a in ATYPES], styles=STYLES,
                            routes='save_lmpdat/StringIO always; Atoms.save(path), Atoms.save(file,"lmpdat"), Atoms.load(path), Atoms.load(file,"lmpdat") on the sub-product co=0'),
                 bounds=dict(atoms=4), rule='one scenario per shape tuple; non-trivial = at least two term kinds present and a tilted cell or a comment-carrying coefficient string',
